@@ -26,7 +26,12 @@ class Oracle:
     """Answers the leaves of an interpreted region from an atom valuation.  Calls are matched by
     template-erased callee name; unknown leaves raise Unknown (-> analysis broken)."""
 
-    def __init__(self, calls=None, params=None, members=None, effects=None, any_member=False):
+    def __init__(self, calls=None, params=None, members=None, effects=None, any_member=False, any_call=False,
+                 any_param=False):
+        # any_call / any_param: calls and parameters the rule does not name evaluate to an opaque value (output
+        # plumbing that is never branched on)
+        self.any_call = any_call
+        self.any_param = any_param
         self.calls = calls or {}
         self.params = params or {}
         self.members = members or {}
@@ -74,7 +79,7 @@ class Oracle:
                 vals[i] = it.ev(a)
             except Unknown:
                 pass             # an argument the callee may never look at
-        child = Oracle(self.calls, vals, self.members, self.effects, self.any_member)
+        child = Oracle(self.calls, vals, self.members, self.effects, self.any_member, self.any_call, self.any_param)
         child.tu = tu
         child.depth = self.depth - 1
         child.this_v = this_v
@@ -94,10 +99,14 @@ class Oracle:
             r = self._inline(t, it)
             if r is not None:
                 return r[1]
+            if self.any_call:
+                return ("opaque", str(n))
             raise Unknown("call of " + str(n))
         if kind == "param":
             if t[1] in self.params:
                 return self.params[t[1]]
+            if self.any_param:
+                return ("opaque", "param %s" % t[2])
             raise Unknown("parameter " + str(t[2]))
         if kind == "member":
             f = erase(t[1])
@@ -114,6 +123,8 @@ class Oracle:
                 if f in self.members:
                     return self.members[f]
             raise Unknown("load " + str(t))
+        if self.any_call and kind in ("str", "enum", "fnref", "lambda", "method", "gvar", "var", "deref"):
+            return ("opaque", kind)
         raise Unknown(kind + " " + str(t)[:80])
 
 
